@@ -1066,6 +1066,10 @@ class Executor:
         if isinstance(base, Ref):
             c = st.heap[base.id]
             if isinstance(c, ObjContent):
+                props = self.contract.options.get('properties')
+                if props and a in props and a not in c.attrs:
+                    # a python @property of the modelled class, given by its (one-line) definition over the modelled state
+                    return props[a](self, st, base)
                 if a in c.attrs:
                     return c.attrs[a]
                 return VFunc('method:' + a, ('method', base, a))
@@ -1231,6 +1235,15 @@ class Executor:
                 return None
             if name == 'index':
                 raise OutOfSubset('list.index at line %d' % node.lineno)
+        if isinstance(c, SetListContent) and name == 'append' and len(args) == 1:
+            sv = self.as_set(st, args[0], node)
+            if sv is None and isinstance(args[0], VTuple) and len(args[0]) == 0:
+                sv = (z3.EmptySet(c.elem_sort), c.elem_sort)
+            if sv is None:
+                raise OutOfSubset('appending a non-set to a list of sets at line %d' % node.lineno)
+            c.data = z3.Store(c.data, to_z3(c.length), sv[0])
+            c.length = to_z3(c.length) + 1
+            return None
         if isinstance(c, SetListContent) and name == 'copy' and not args:
             # dict.copy(): a new level -> set map with the same sets (sets are values in this model)
             r = Ref(obj.label + '.copy')
